@@ -480,26 +480,7 @@ theorem history_noDupSig (ops : List (Op α σ)) : NoDupSig sig (run sig [] ops)
   run_noDupSig sig [] ops List.Pairwise.nil
 
 theorem noDupSigB_iff (cs : List α) : noDupSigB sig cs = true ↔ NoDupSig sig cs := by
-  unfold noDupSigB NoDupSig
-  rw [List.pairwise_iff_getElem]
-  simp only [range_all_iff]
-  constructor
-  · intro h i j hi hj hij
-    have := h i hi j hj
-    simp only [List.getElem?_eq_getElem hi, List.getElem?_eq_getElem hj, Bool.or_eq_true, beq_iff_eq,
-      decide_eq_true_eq] at this
-    rcases this with e | e
-    · omega
-    · exact e
-  · intro h i hi j hj
-    simp only [List.getElem?_eq_getElem hi, List.getElem?_eq_getElem hj, Bool.or_eq_true, beq_iff_eq,
-      decide_eq_true_eq]
-    by_cases e : i = j
-    · left; exact e
-    · right
-      rcases Nat.lt_or_gt_of_ne e with l | l
-      · exact h i j hi hj l
-      · exact fun q => h j i hj hi l q.symm
+  simp [noDupSigB, NoDupSig]
 
 theorem insertSpecB_iff [DecidableEq α] (cs : List α) (v : α) (res : List α) :
     insertSpecB sig cs v res = true ↔ InsertSpec sig cs v res := by
